@@ -104,7 +104,12 @@ func runSnapshotCase(o *hx.Out, p params) (string, int64) {
 		select {
 		case <-pk.parked:
 		case <-time.After(stepTimeout):
-			panic("apply round did not start")
+			reportStuck(o, p, "the follower does not start applying entries 0.."+fmt.Sprint(j)+" that are synced and advertised as committed")
+			releaseParked()
+			ls.cancel()
+			closeFollower(fc)
+			n.closeFactories()
+			return "stuck", 0
 		}
 	} else {
 		waitFor(stepTimeout, func() bool { return fc.CommitOffset() >= int64(j) })
@@ -159,7 +164,7 @@ func runSnapshotCase(o *hx.Out, p params) (string, int64) {
 		select {
 		case <-sdone:
 		case <-time.After(stepTimeout):
-			panic("SendSnapshot does not return")
+			reportStuck(o, p, "SendSnapshot does not return")
 		}
 	}
 	select {
